@@ -2,6 +2,7 @@ package dsl
 
 import (
 	"fmt"
+	"os"
 	"strings"
 
 	"github.com/iancoleman/strcase"
@@ -277,7 +278,7 @@ func GenProgram(t *rapid.T, cfg GenCfg) *Program {
 	names := make([]string, np)
 	for i := range names {
 		names[i] = g.nm.Name(t, fmt.Sprintf("pkt%d", i), ShUpperCamel)
-		if cfg.Shapes && !cfg.avoid("shape:packet") && rapid.IntRange(0, 3).Draw(t, "pktshape") == 0 {
+		if cfg.Shapes && !cfg.avoid("shape:packet") && (rapid.IntRange(0, 3).Draw(t, "pktshape") == 0 || os.Getenv("VERIF_PKT_SHAPES") != "") {
 			// packet names of other shapes are a C07 matter
 			g.nm.used[norm(names[i])] = false
 			var ok []Shape
